@@ -582,3 +582,18 @@ class GroupSlot:
 class GroupValues:
     def __init__(self, d):
         self.d = d
+
+
+class RecClass:
+    """typing.NamedTuple(name, fields): calling it builds a RecV."""
+
+    def __init__(self, name, fields):
+        self.name = name
+        self.fields = list(fields)
+
+
+class BytesOf:
+    """str.encode('utf8') of a (symbolic) string: only its length and - for one byte - its ordinal are observable."""
+
+    def __init__(self, s):
+        self.s = s
